@@ -4,8 +4,10 @@ import Orb.Resample
 /-!
   Driver for C17 (resample.Resample / resample.ToInterval).
 
-      rs <df> <line> <N>      => D m d0 … dm-1 <result>
-      iv <df> <line> <dbits>  => D m d0 … dm-1 <result>
+      rs <df> <line> <N>      => D m d0 … dm-1 <result> ; B <reuse>
+      iv <df> <line> <dbits>  => D m d0 … dm-1 <result> ; B <reuse>
+      conc <G> <rounds> <k> (<op> <df> <line> <arg>)*k
+                              => D … <result_0> | … | D … <result_k-1> ; C same <calls> | C <member> <round> <result>
 
   `<df>` = `pl` (planar.Distance) | `geo` (geo.Distance); `<line>` = `nLS | LS n (x y)*`;
   `<result>` = `nLS | LS k (x y)* | panic | hang | toobig`; `D …` are the values the real
@@ -52,6 +54,26 @@ import Orb.Resample
   its two end points (`segsOfD`), not the planar segment across all longitudes; the spacing
   clauses skip it (`pointAtArc`, `arcSeg` look at segments of positive length only) and take the
   first / last VERTEX as the reference of the first / last point.
+
+  Nothing outside the call (harness/c17_state.go).  `Orb.Resample` is a function of its arguments; the
+  code has to be one too:
+  * `; B …`: after the fresh call (a freshly made slice, used once) the harness repeats the call out
+    of ONE reused vertex buffer (same backing array for the whole process) after that buffer held a
+    different line of the same length / with the same end points / a longer / a shorter one, after
+    a call with another distance function, with a closure of the same function literal, with
+    another count or interval, through the other entry point, and immediately again.  Every
+    repetition must return the fresh result bit for bit: `propfail reuse-differs <which> <op> :: <the
+    verdict of the property on THAT result>` otherwise (`handleCall`).
+  * op `conc`: k calls made one after the other are judged like k cases; then G goroutines make
+    `rounds` calls each (goroutine j, round r: member (j+r) mod k, out of its own private buffer)
+    and every result must be the sequential one bit for bit: `propfail concurrent-differs …`
+    (`handleConc`).
+  * lines of up to 20000 vertices resampled to up to 50000 points: beyond `bigWork` vertex × point
+    pairs the sampling clauses are judged in linear time (`samplingCheckLinear`: spacing and
+    spacing-df by one monotone walk; the point of the line at arc length `k·T/(N-1)` is on the line and
+    in travel order by construction), in `Float` also for integer axis-aligned lines (tags
+    `float-long`, `geo-long`), and the twin of a long geo line takes the observed distances as the
+    `dists` list directly (`twinObs`) instead of looking each pair up.
 
   Outside the quantifier (`skip`): d = NaN (neither `d > 0` nor `d ≤ 0`); d > 0 so small that
   `T/d ≥ 2^63` (the requested count is not representable as an `int`; Go's `int(x)` wraps to
@@ -202,7 +224,58 @@ def samplingCheck (dfc : Pt β → Pt β → β) (lip : β) (ps : List (Pt β)) 
         | some k => some s!"spacing-df {k}"
         | none => none
 
+/-- `spacingViolation` (`useDf = false`) / `dfSpacingViolation` (`useDf = true`) in LINEAR time, for
+    long lines: one monotone walk over the segments.  The arc targets `arcTarget total N k` do not
+    decrease with `k`, so the segment that `pointAtArc` / `arcSeg` find by scanning from the start
+    for the `k`-th point is the one this walk is standing on (or a later one it moves to).
+    Same references, same tolerances; first offender. -/
+partial def linearViolation (dfc : Pt β → Pt β → β) (useDf : Bool) (total : β) (N : Nat)
+    (first last : Pt β) (tol2 tolD : β) :
+    List (Pt β) → List β → β → List (Pt β) → Nat → Option Nat
+  | _, _, _, [], _ => none
+  | ps, ds, acc, p :: rest, k =>
+    let t := arcTarget total N k
+    match ps, ds with
+    | a :: b :: ps', d :: ds' =>
+      if 0 < d ∧ t ≤ acc + d then
+        let good : Bool :=
+          if useDf then decide (absv (acc + dfc a p - t) ≤ tolD)
+          else
+            let ref := if k == 0 then first else if k + 1 == N then last else lerp a b ((t - acc) / d)
+            decide (dsq p ref ≤ tol2)
+        if good then linearViolation dfc useDf total N first last tol2 tolD ps ds acc rest (k + 1) else some k
+      else linearViolation dfc useDf total N first last tol2 tolD (b :: ps') ds' (acc + d) (p :: rest) k
+    | _, _ =>
+      -- beyond the last segment of positive length: the reference is the last vertex
+      let good : Bool :=
+        if useDf then decide (absv (total + dfc last p - t) ≤ tolD)
+        else decide (dsq p (if k == 0 then first else last) ≤ tol2)
+      if good then linearViolation dfc useDf total N first last tol2 tolD ps ds acc rest (k + 1) else some k
+
+/-- the sampling clauses for LONG lines (more than `bigWork` vertex × point pairs), in linear time:
+    the spacing clause — the `k`-th point IS (within the position tolerance) the point of the line at
+    arc length `k·total/(N-1)`, which puts it on the line and in travel order up to that tolerance —
+    and the spacing-df clause.  Same tolerances as `samplingCheck`. -/
+def samplingCheckLinear (dfc : Pt β → Pt β → β) (lip : β) (ps : List (Pt β)) (ds : List β) (N : Nat)
+    (out : List (Pt β)) (tol tolE : β) : Option String :=
+  let total := sumL ds
+  let s := tol * (total * stretchOf ps ds 0) + tolE * extentOf ps
+  let tol2 := s * s
+  let tolD := lip * s + lip * s + tol * total
+  let last := ps.getLast?.getD ⟨0, 0⟩
+  let first := ps.head?.getD last
+  match linearViolation dfc false total N first last tol2 tolD ps ds 0 out 0 with
+  | some k => some s!"spacing {k}"
+  | none =>
+    match linearViolation dfc true total N first last tol2 tolD ps ds 0 out 0 with
+    | some k => some s!"spacing-df {k}"
+    | none => none
+
 end check
+
+/-- vertex × point pairs beyond which a case is judged in linear time (`samplingCheckLinear`, Float
+    only): the quadratic clauses of `samplingCheck` and the exact `Rat` instance are for the others -/
+def bigWork : Nat := 4000000
 
 /-! ### instances -/
 
@@ -335,8 +408,9 @@ def propCheck (dfName : String) (op : Op) (inp : Option (List (Pt UInt64))) (dsF
         else s!"ok zero-computed-length {opName}"
       else
         -- exact instance?
+        let big : Bool := psB.length * outB.length > bigWork
         let exact : Option (List (Pt Rat) × List Rat × List (Pt Rat)) :=
-          if dfName != "pl" then none else do
+          if dfName != "pl" || big then none else do
             let ps ← ratPts psB
             let out ← ratPts outB
             if axisAligned ps then some (ps, List.zipWith manhattan ps ps.tail, out) else none
@@ -379,7 +453,7 @@ def propCheck (dfName : String) (op : Op) (inp : Option (List (Pt UInt64))) (dsF
                   | _ => "diff exact-model-fails"))
         | none =>
           let geo := dfName == "geo"
-          let arith := if geo then "geo" else "float"
+          let arith := (if geo then "geo" else "float") ++ (if big then "-long" else "")
           -- admissible counts: for ToInterval ⌊x⌋+1 with x = T/d; when x(1 ± 1e-9) straddles an
           -- integer the count is undecidable in floats: both neighbours are accepted and the
           -- sampling clauses are judged with the count the implementation chose
@@ -398,7 +472,8 @@ def propCheck (dfName : String) (op : Op) (inp : Option (List (Pt UInt64))) (dsF
             let edge := if cands.length == 1 then "" else " edge-count"
             let shape := if N == 1 then "one" else if N == 2 then "two" else "many"
             let dfc : Pt Float → Pt Float → Float := if geo then geoF else planarF
-            match samplingCheck dfc (if geo then geoLip else 1) psF dsF N outF tol9 (Float.ofScientific 1 true 13) with
+            match (if big then samplingCheckLinear dfc (if geo then geoLip else 1) psF dsF N outF tol9 (Float.ofScientific 1 true 13)
+                   else samplingCheck dfc (if geo then geoLip else 1) psF dsF N outF tol9 (Float.ofScientific 1 true 13)) with
             | none => s!"ok {arith} {opName} {shape}{edge}"
             | some why =>
               -- geo.Distance is not linear along a segment that is neither a meridian nor a
@@ -409,69 +484,205 @@ def propCheck (dfName : String) (op : Op) (inp : Option (List (Pt UInt64))) (dsF
                  else s!"ok {arith} {opName} {shape}{edge}")   -- turned into `diff` by the caller
               else "propfail " ++ why
 
+/-- Float twin with the OBSERVED segment distances put in for `dists df ps` (`Orb.Resample.resample` /
+    `toInterval` unfolded one step: `precompute` returns `(sumDists ds, ds)`).  Used for long geo
+    lines, where looking every pair up in the table (`tableDf`) is quadratic. -/
+def twinObs (op : Op) (lineF : Line Float) (dsF : List Float) : Res Fail (Line Float) :=
+  let ps := lineF.pts
+  let core (n : Int) : Res Fail (Line Float) :=
+    match edgeCases lineF n with
+    | .ok (some r) => .ok r
+    | .ok none => resampleCore ps dsF (sumDists dsF) n
+    | .err e => .err e
+    | .panic s => .panic s
+  match op with
+  | .rs n => if n ≤ 0 then .ok none else
+      (match edgeCases lineF n with
+       | .ok (some r) => .ok r
+       | .ok none => (match ps with
+          | [] => .panic "makeslice: len out of range"
+          | _ :: _ => resampleCore ps dsF (sumDists dsF) n)
+       | .err e => .err e
+       | .panic s => .panic s)
+  | .iv d =>
+    let dF := Float.ofBits d
+    if dF ≤ 0 then .ok none
+    else if ps.length ≤ 1 then .ok lineF
+    else core (truncF (sumDists dsF / dF) + 1)
+
+def cut (s : String) (n : Nat := 300) : String := if s.length > n then (s.take n).toString ++ "…" else s
+
+/-- one call: the input, the observed segment distances `dsB`, the serialised result `resT` -/
+def judgeRes (opName dfName : String) (inp : Option (List (Pt UInt64))) (op : Op)
+    (dsB : List UInt64) (resT : Toks) : String :=
+  let dsF := dsB.map Float.ofBits
+  let psF := toFl (inp.getD [])
+  -- the distance function of the twin
+  let plDs := List.zipWith planarF psF psF.tail
+  -- planar: recomputed bit for bit; geo: observed values, cross-checked against `geoF` to 1e-9
+  let dfOk := if dfName == "pl" then (plDs.map Float.toBits) == dsB else geoObsOk psF dsF
+  let df : Pt Float → Pt Float → Float := if dfName == "pl" then planarF else tableDf psF dsF
+  let lineF : Line Float := inp.map toFl
+  let implS := " ".intercalate resT
+  if implS == "toobig" then "skip too-many-points" else
+  -- outside the quantifier "d > 0" / no representable result (see the header)
+  let outside : Option String := match op with
+    | .rs _ => none
+    | .iv d =>
+      let dF := Float.ofBits d
+      if dF != dF then some "nan-interval"
+      else if 0 < dF && psF.length ≥ 2 && !(sumL dsF / dF < 9223372036854775808) then
+        some s!"unrepresentable-count {resT.headD "?"}"
+      else none
+  match outside with
+  | some why => "skip " ++ why
+  | none =>
+  let model : Res Fail (Line Float) :=
+    if dfName != "pl" && psF.length > 2000 then
+      (if dsF.length + 1 == psF.length then twinObs op lineF dsF else .panic "observations missing")
+    else match op with
+      | .rs n => resample df lineF n
+      | .iv d => toInterval truncF df lineF (Float.ofBits d)
+  let mS := showRes model
+  let agree := dfOk && mS == implS
+  let fin (s : String) : String :=
+    if s.startsWith "propfail" || agree then s
+    else if !dfOk then (if dfName == "pl" then "diff planar-distance-bits" else "diff geo-distance-values")
+    else "diff " ++ (if mS.length > 4000 then (mS.take 4000).toString ++ "…" else mS)
+  fin <|
+    match resT with
+    | ["panic"] =>
+      if (inp.getD []).isEmpty then s!"propfail panic {opName} empty-line"
+      else s!"propfail panic {opName} len={(inp.getD []).length}"
+    | ["toolong", n] =>
+      -- a repetition / concurrent call returned far more points than the fresh / sequential call
+      -- (more than twice as many plus 5000: harness/c17_state.go does not transmit such a result)
+      s!"propfail count {n} (not transmitted)"
+    | ["hang"] =>
+      -- no answer from the watchdogged child process (twice).  Since 8096037 the append loop
+      -- is bounded by `step < totalPoints`; this outcome is reachable by mutants only.
+      if sumL dsF == 0 then s!"propfail hang {opName} zero-computed-length"
+      else s!"propfail hang {opName} len={(inp.getD []).length}"
+    | _ =>
+      match lineP resT with
+      | some (res, []) => propCheck dfName op inp dsF res agree
+      | _ => "bad result"
+
+/-- split a token list at every `sep` -/
+def splitAt (sep : String) (ts : Toks) : List Toks :=
+  let (cur, acc) := ts.foldr (fun t (cur, acc) => if t == sep then ([], cur :: acc) else (t :: cur, acc)) ([], [])
+  cur :: acc
+
+def parseOp (opName : String) (argT : Toks) : Option Op :=
+  match opName, argT with
+  | "rs", [n] => n.toInt?.map Op.rs
+  | "iv", [d] => (hexToNat? d).map fun v => Op.iv (UInt64.ofNat v)
+  | _, _ => none
+
+/-- `D m d0 … dm-1 <result>` -/
+def judgeOutcome (opName dfName : String) (inp : Option (List (Pt UInt64))) (op : Op) (outT : Toks) : String :=
+  match outT with
+  | "D" :: outT =>
+    (match counted bits outT with
+     | none => "bad dists"
+     | some (dsB, resT) => judgeRes opName dfName inp op dsB resT)
+  | _ => "bad outcome"
+
+/-- rs / iv: the fresh call, then the reuse section `; B …` (harness/c17_state.go): every repetition
+    of the call out of the ONE reused vertex buffer must have returned the fresh result bit for bit.
+    A repetition that differs is a violation whatever the fresh call returned (`propfail reuse-differs
+    <which repetition> :: <how the property judges THAT result>`); a `propfail` of the fresh result
+    outranks it, a `diff` does not. -/
+def handleCall (opName dfName : String) (rest : Toks) : String :=
+  let (inpT, outT) := splitArrow rest
+  match lineP inpT with
+  | none => "bad line"
+  | some (inp, argT) =>
+    match parseOp opName argT with
+    | none => "bad op"
+    | some op =>
+      match splitAt ";" outT with
+      | [mainT] => judgeOutcome opName dfName inp op mainT       -- (lines written before the reuse section existed)
+      | [mainT, reuseT] =>
+        let v := judgeOutcome opName dfName inp op mainT
+        (match reuseT with
+         | ["B", "none"] => v
+         | ["B", "same", _] => v
+         | "B" :: label :: res2 =>
+           if v.startsWith "propfail" || v.startsWith "bad" then v else
+           (match mainT with
+            | "D" :: dT =>
+              (match counted bits dT with
+               | some (dsB, _) =>
+                 s!"propfail reuse-differs {label} {opName} :: " ++ cut (judgeRes opName dfName inp op dsB res2)
+               | none => "bad dists")
+            | _ => "bad outcome")
+         | _ => "bad reuse-section")
+      | _ => "bad outcome-sections"
+
+/-- one member of a `conc` case: `<op> <df> <line> <arg>` -/
+def memberP : P (String × String × Option (List (Pt UInt64)) × Op) := fun ts =>
+  match ts with
+  | opName :: dfName :: ts =>
+    (match lineP ts with
+     | some (inp, a :: ts) => (parseOp opName [a]).map fun op => ((opName, dfName, inp, op), ts)
+     | _ => none)
+  | _ => none
+
+/-- `conc <G> <rounds> <k> member*k => D … res_0 | … | D … res_k-1 ; C same <calls> | C <member> <round> <result>`:
+    the k sequential calls are judged like k ordinary cases; every one of the G × rounds concurrent
+    calls (and the k sequential calls made afterwards, round -1) must have returned the sequential
+    result of its member bit for bit.  The known-finding label `spacing-df geo-nonlinear` of a
+    member is not a verdict of the `conc` case (the same lines are generated as plain rs / iv cases). -/
+def handleConc (rest : Toks) : String :=
+  let (inpT, outT) := splitArrow rest
+  match inpT with
+  | g :: rounds :: kT :: memT =>
+    (match kT.toNat?, splitAt ";" outT with
+     | some k, [membersT, cT] =>
+       (match many memberP k memT with
+        | some (mems, []) =>
+          let outs := splitAt "|" membersT
+          if outs.length != k then "bad conc-member-count" else
+          let vs := (mems.zip outs).map fun ((opName, dfName, inp, op), o) => judgeOutcome opName dfName inp op o
+          let vs := vs.map fun v => if v.startsWith "propfail spacing-df geo-nonlinear" then "ok known" else v
+          let firstOf (pre : String) : Option String :=
+            (vs.zipIdx.find? fun (v, _) => v.startsWith pre).map fun (v, i) => cut v 400 ++ s!" @member{i}"
+          (match firstOf "propfail" with
+           | some v => v
+           | none =>
+             match cT with
+             | ["C", "same", _] =>
+               (match firstOf "bad" with
+                | some v => v
+                | none =>
+                  match firstOf "diff" with
+                  | some v => v
+                  | none => s!"ok conc {g}x{rounds} k={k}")
+             | "C" :: iT :: rT :: res2 =>
+               (match iT.toNat? with
+                | some i =>
+                  (match mems[i]?, outs[i]? with
+                   | some (opName, dfName, inp, op), some ("D" :: dT) =>
+                     (match counted bits dT with
+                      | some (dsB, _) =>
+                        s!"propfail concurrent-differs member={i} round={rT} {opName} :: " ++
+                          cut (judgeRes opName dfName inp op dsB res2)
+                      | none => "bad dists")
+                   | _, _ => "bad conc-member-index")
+                | none => "bad conc-section")
+             | _ => "bad conc-section")
+        | _ => "bad conc-members")
+     | _, _ =>
+       -- a member that may only run in the watchdogged child process (hand-written case): not run
+       if outT.head? == some "unfit-member" then "skip conc-unfit-member"
+       else "bad conc-outcome " ++ cut (" ".intercalate outT) 60)
+  | _ => "bad conc"
+
 def handle (ts : Toks) : String :=
   match ts with
-  | opName :: dfName :: rest =>
-    let (inpT, outT) := splitArrow rest
-    match lineP inpT with
-    | none => "bad line"
-    | some (inp, argT) =>
-      let op? : Option Op := match opName, argT with
-        | "rs", [n] => n.toInt?.map Op.rs
-        | "iv", [d] => (hexToNat? d).map fun v => Op.iv (UInt64.ofNat v)
-        | _, _ => none
-      match op?, outT with
-      | none, _ => "bad op"
-      | some op, "D" :: outT =>
-        (match counted bits outT with
-         | none => "bad dists"
-         | some (dsB, resT) =>
-           let dsF := dsB.map Float.ofBits
-           let psF := toFl (inp.getD [])
-           -- the distance function of the twin
-           let plDs := List.zipWith planarF psF psF.tail
-           -- planar: recomputed bit for bit; geo: observed values, cross-checked against `geoF` to 1e-9
-           let dfOk := if dfName == "pl" then (plDs.map Float.toBits) == dsB else geoObsOk psF dsF
-           let df : Pt Float → Pt Float → Float := if dfName == "pl" then planarF else tableDf psF dsF
-           let lineF : Line Float := inp.map toFl
-           let implS := " ".intercalate resT
-           if implS == "toobig" then "skip too-many-points" else
-           -- outside the quantifier "d > 0" / no representable result (see the header)
-           let outside : Option String := match op with
-             | .rs _ => none
-             | .iv d =>
-               let dF := Float.ofBits d
-               if dF != dF then some "nan-interval"
-               else if 0 < dF && psF.length ≥ 2 && !(sumL dsF / dF < 9223372036854775808) then
-                 some s!"unrepresentable-count {resT.headD "?"}"
-               else none
-           match outside with
-           | some why => "skip " ++ why
-           | none =>
-           let model : Res Fail (Line Float) := match op with
-             | .rs n => resample df lineF n
-             | .iv d => toInterval truncF df lineF (Float.ofBits d)
-           let mS := showRes model
-           let agree := dfOk && mS == implS
-           let fin (s : String) : String :=
-             if s.startsWith "propfail" || agree then s
-             else if !dfOk then (if dfName == "pl" then "diff planar-distance-bits" else "diff geo-distance-values")
-             else "diff " ++ (if mS.length > 4000 then (mS.take 4000).toString ++ "…" else mS)
-           fin <|
-             match resT with
-             | ["panic"] =>
-               if (inp.getD []).isEmpty then s!"propfail panic {opName} empty-line"
-               else s!"propfail panic {opName} len={(inp.getD []).length}"
-             | ["hang"] =>
-               -- no answer from the watchdogged child process (twice).  Since 8096037 the append
-               -- loop is bounded by `step < totalPoints`; this outcome is reachable by mutants only.
-               if sumL dsF == 0 then s!"propfail hang {opName} zero-computed-length"
-               else s!"propfail hang {opName} len={(inp.getD []).length}"
-             | _ =>
-               match lineP resT with
-               | some (res, []) => propCheck dfName op inp dsF res agree
-               | _ => "bad result")
-      | _, _ => "bad outcome"
+  | "conc" :: rest => handleConc rest
+  | opName :: dfName :: rest => handleCall opName dfName rest
   | _ => "bad empty"
 
 end Driver.C17
